@@ -112,7 +112,7 @@ for _nfrag in (1, 2, 3):
     contract(
         id=f"sizes.read.fragmented.{_nfrag}", func=LD + "._send_read_fragmented", call="d.send(req)",
         params=dict(BASE, **SC, name=P.str(**IDENT), elements=P.int(1, 65535), head=P.bytes(len=46),
-                    **{c: P.bytes(minlen=1, maxlen=4000) for c in _chunks}),
+                    **{c: P.bytes(minlen=(1 if c == "c0" else 0), maxlen=4000) for c in _chunks}),      # a later fragment may carry no data at all
         requires=["spec.encap.le(head, 8, 4) == 0"],
         setup=CONN + [f"tag_info = {_tag_info('DINT')}", "tag_info['type_class'] = type(pycomm3.cip.data_types.n_bytes(-1))",
                       "req = pycomm3.packets.ReadTagFragmentedRequestPacket(5, name, elements, tag_info, 0, use_ids, 0)",
@@ -122,9 +122,13 @@ for _nfrag in (1, 2, 3):
         ensures=[f"len(t.sent) == {_nfrag}",
                  "all(r['service'] == 0x52 and r['elements'] == elements and r['rest'] == b'' for r in reqs())",
                  "[r['offset'] for r in reqs()] == [" + ", ".join("+".join(f"len(c{j})" for j in range(i)) or "0" for i in range(_nfrag)) + "]",
-                 "result.value_bytes == " + " + ".join(_chunks),
-                 "all(r['path'] == reqs()[0]['path'] for r in reqs())"],
-        props=["C04", "C01"], max_paths=20000)
+                 "result.value_bytes == " + " + ".join(_chunks), "bool(result) or len(" + " + ".join(_chunks) + ") == 0",
+                 "all(r['path'] == reqs()[0]['path'] for r in reqs())",
+                 # every fragment request is a packet of its own: consecutive sequence counts differ (the follow-ups are successive draws)
+                 "all(spec.encap.try_parse_frame(t.sent[k])[3][2] != spec.encap.try_parse_frame(t.sent[k + 1])[3][2] for k in range(len(t.sent) - 1))",
+                 "all(spec.encap.try_parse_frame(t.sent[k + 1])[3][2] == spec.seq.successor(spec.encap.try_parse_frame(t.sent[k])[3][2], 1, 65535) "
+                 "for k in range(1, len(t.sent) - 1))"],
+        props=["C04", "C01", "C13", "C17"], max_paths=20000)
 
 # ---- the size asked for at Forward Open
 for _ext, _size in (("True", 4000), ("False", 500)):
@@ -155,3 +159,18 @@ contract(
                   "spec.logix.read_fragment_reply(head, 0, b'\\xc4\\x00', c1)])", "d._sock = t"],
     ensures=["not bool(result)", "isinstance(result.error, str) and len(result.error) > 0"],
     props=["C04", "C01", "C13"], max_paths=20000)
+
+# a final fragment whose reply ends right after the status words (or inside the type field): no exception out of the read, and
+# nothing that is not there is reported as a value
+contract(
+    id="sizes.read.fragmented.truncated_last", func=LD + "._send_read_fragmented", call="d.send(req)",
+    bind={"tail": ["b''", "b'\\xc4'", "b'\\xc4\\x00'"], "first_ok": ["True", "False"]},
+    params=dict(BASE, **SC, name=P.str(**IDENT), elements=P.int(1, 65535), head=P.bytes(len=46), c0=P.bytes(minlen=1, maxlen=400)),
+    requires=["spec.encap.le(head, 8, 4) == 0"],
+    setup=CONN + [f"tag_info = {_tag_info('DINT')}", "tag_info['type_class'] = type(pycomm3.cip.data_types.n_bytes(-1))",
+                  "req = pycomm3.packets.ReadTagFragmentedRequestPacket(5, name, elements, tag_info, 0, use_ids, 0)",
+                  "last = head + bytes([0xD2, 0, 0, 0]) + tail",
+                  "t = spec.env.Transport(([spec.logix.read_fragment_reply(head, 6, b'\\xc4\\x00', c0)] if first_ok else []) + [last])", "d._sock = t"],
+    ensures=["(not bool(result)) or result.value_bytes == (c0 if first_ok else b'')"],
+    raises_only=["pycomm3.exceptions.PycommError"], ensures_exc=["False"],
+    props=["C13", "C01", "C03"], max_paths=20000)
